@@ -28,8 +28,7 @@ KEY_PAREN = "st-paren-value-absorbs-next-computed-edit"
 KEY_DIGITS = "st-name-ending-in-digits-resplit"
 KEY_COLON = "st-colon-value-starting-with-letter-read-as-namespace"
 KEY_CSPACE = "st-computed-space-after-delimiter-rejected"
-HAZARD_KEY = {"digits": KEY_DIGITS, "abut": KEY_DIGITS, "paren-amp": KEY_PAREN, "colon-letter": KEY_COLON,
-              "computed-space": KEY_CSPACE}
+HAZARD_KEY = {"digits": KEY_DIGITS, "abut": KEY_DIGITS, "paren-amp": KEY_PAREN, "colon-letter": KEY_COLON}
 
 MY_COQ_FILES = ["Model/St.v", "Proofs/StProofs.v", "Corr/Corr18.v"]
 
